@@ -688,7 +688,10 @@ func (sd *SpecAnalyser) compareSchema(location DifferenceLocation, schema1, sche
 	typeDiffs := sd.CompareProps(&schema1.SchemaProps, &schema2.SchemaProps)
 	if len(typeDiffs) > 0 {
 		sd.addDiffs(location, typeDiffs)
-		return
+		// item-count changes of an array do not excuse its items from comparison
+		if !(isArray(schema1) && isArray(schema2)) {
+			return
+		}
 	}
 
 	if isArray(schema1) {
